@@ -117,8 +117,9 @@ def main(tier):
         F, rec, unc, rn = census(run, doc, name, quiet_samples=(i >= 2))
         unc_all.update(unc)
         if i == 0:
-            from ..premises import trait_impls
+            from ..premises import trait_impls, dep_features
             trait_impls(run, F, "C01")
+            dep_features(run, "C01")
             recs = rec
             reach_n = rn
             run.floor("entry points", len(F.evaluators_present()), 5)
